@@ -598,6 +598,8 @@ def judge(case, obs, res):
             ok, why = fee_ref.feasible(strat, coins, need, fpb)
             if need <= 0:
                 viol({'kind': 'refused-no-deficit', 'strategy': strat}, f'refused although the pre-chosen input covers the cost')
+            elif ok is None:
+                res.tally('refusal_not_judged:subset_sum_reference_too_large')
             elif ok:
                 cls = ('tiny-deficit' if need < 10 and strat == 'sqlite' else
                        'nonpositive-effective-coin' if wc['nonpositive'] else 'plain')
